@@ -5,6 +5,7 @@ from __future__ import annotations
 import base64
 import os
 import random
+import re
 import sys
 import tempfile
 import zlib
@@ -14,6 +15,7 @@ from common import framework as fw  # noqa: E402
 from common.framework import Case, Failure, Property  # noqa: E402
 from common import env  # noqa: E402
 from common import tokenizer as tk  # noqa: E402
+from common import lexcheck  # noqa: E402
 from common.ctlgen import gen_ctl  # noqa: E402
 from common import imgkit  # noqa: E402
 
@@ -30,10 +32,19 @@ def hx(b: bytes) -> str:
 
 class C01(Property):
     id = "C01"
-    lean_props = ["TIV.C01.Props"]
+    # TIV.Common.LexProofs: the Lean lexer the oracle reads the real bytes with is proved inverse to the
+    # model's printing (`lex_toksStr`, for every render of the three models: `lex_block/kitty/iterm_render`)
+    lean_props = ["TIV.C01.Props", "TIV.Common.LexProofs"]
     driver = "drv_c01"
     partial = ("that real kitty/iTerm2/WezTerm/Konsole behave like TIV.Common.Term (the quirk table is the "
-               "library's own stated belief); that a terminal parses the bytes back into the tokens (parser theorem pending)")
+               "library's own stated belief) and read the bytes the way TIV.Lex.lex does (a strict reading, proved "
+               "inverse to the models' printing and to end in the ground state of TIV.Common.Scan)")
+
+    def __init__(self):
+        self._outs: list[str] = []  # every real render output of the run (cross-checked in extra_checks)
+        self._cases: list[Case] = []  # the cases that have one
+        self._lean: dict[int, str] | None = None  # id(case) -> driver answer (one batch for the whole run)
+        self._lean_wire: dict[str, str] = {}  # output -> what the Lean lexer read
     quick_cases = 1500
     thorough_cases = 12000
 
@@ -192,6 +203,9 @@ class C01(Property):
     # -- run the real code, build the model request from what the real code was given ------
     def _render(self, d):
         """returns (real render string, model request line)"""
+        for k in ("bg", "cell"):  # a replayed case comes back from JSON with lists for tuples
+            if isinstance(d.get(k), list):
+                d[k] = tuple(d[k])
         img = imgkit.make_image(d)
         style = d["style"]
         env.reset_env()
@@ -306,11 +320,45 @@ class C01(Property):
             return "err TokenizeError"
         case.line = line
         case.data["_out"] = out
+        self._outs.append(out)
+        self._cases.append(case)
         return "ok " + hx(out.encode())
 
     needs_impl_first = True
 
+    # -- the two readings of the bytes agree ---------------------------------------------
+    def extra_checks(self, rng, tier, ev):
+        """every real render output of the run, read by the Python tokenizer (still used to build the kitty/iterm2
+        model request lines) and by the Lean lexer (used by the oracle): the wire tokens must be identical. A
+        disagreement is a defect of the harness, not of the library: reported as INFRA (the framework turns an
+        exception of extra_checks into an INFRA line and exit 2)."""
+        bad = lexcheck.cross_check(self.driver, self._outs, self._lean_wire)
+        ev["coverage"]["lexer_cross_check"] = {"outputs": len(set(self._outs)), "disagreements": len(bad), "first": bad[:3]}
+        if bad:
+            raise RuntimeError(f"lexer cross-check: python tokenizer and Lean lexer disagree on {len(bad)} outputs: {bad[0]}")
+        return []
+
     # -- oracle -----------------------------------------------------------------------
+    @staticmethod
+    def _kind(d):
+        return d.get("_eff_term") or d.get("term") or ("kitty" if d.get("kitty_term") else "other")
+
+    def _request(self, case: Case):
+        """the driver request of a case (its real output on three terminals in which the block fits) and the placements"""
+        d = case.data
+        w, h = d["_size"]
+        places = []
+        rng = random.Random(hash(case.line) & 0xFFFF)
+        for _ in range(3):
+            W = w + rng.choice([0, 0, 1, 5])
+            H = h + rng.choice([0, 0, 1, 4])
+            x = rng.choice([0, W - w])
+            top = rng.randrange(0, 3)
+            row = top + rng.choice([0, H - h])
+            places.append((W, H, row, x, top))
+        terms = [(W, H, self._kind(d), row, x, top, x) for (W, H, row, x, top) in places]
+        return lexcheck.runbytes_n_request(d["_out"], terms), places
+
     def oracle(self, case: Case, impl_result: str):
         d = case.data
         where = f"{d['style']}/{d.get('method', '')}/{d.get('term', '')}/{d['_size'] if '_size' in d else ''}"
@@ -320,38 +368,64 @@ class C01(Property):
         w, h = d["_size"]
         if out.count("\n") != h - 1 or out.endswith("\n"):
             return Failure(f"newlines/{where}", f"{out.count(chr(10))} newlines for {h} lines (or trailing newline)")
-        toks = tk.tokenize(out)
-        for t in toks:
-            if t.wire.startswith("K") and t.info["keys"].get("o") == "z":
-                try:
-                    zlib.decompress(base64.standard_b64decode("".join(c for _, c in t.info["chunks"])))
-                except Exception as e:
-                    return Failure(f"undisplayable/{where}", f"a kitty command says o=z but its payload does not inflate ({e}): "
-                                   "the terminal rejects the image and the rectangle is not covered")
-        kind = d.get("_eff_term") or d.get("term") or ("kitty" if d.get("kitty_term") else "other")
+        # the reading of the bytes is Lean-side: `term.runbytes.n` runs TIV.Lex.lex (proved inverse to the models'
+        # printing, LexProofs.lex_toksStr) on the real output and the terminal model on what it read; the Python
+        # tokenizer is not consulted. All cases of the run go to the driver in one batch (first call).
+        if self._lean is None:
+            todo = [c for c in self._cases if c.data.get("_out") is not None] or [case]
+            answers = lexcheck.run_batched(self.driver, [self._request(c)[0] for c in todo])
+            self._lean = {id(c): a for c, a in zip(todo, answers)}
+        req, places = self._request(case)
+        resp = self._lean.get(id(case)) or fw.run_driver(self.driver, [req])[0]
+        kind = self._kind(d)
+        parsed = lexcheck.parse_runbytes_n(resp)
+        self._lean_wire[out] = "err lex" if parsed is None else " ".join([str(len(parsed[0]))] + parsed[0])
+        if parsed is None:
+            return Failure(f"tokenize/{where}", "render output is not a sequence of complete control sequences of the "
+                           "library in canonical form (TIV.Lex.lex rejects it)")
+        wires, res = parsed
+        f = payload_check(out)
+        if f:
+            return Failure(f"undisplayable/{where}", f)
         if kind == "konsole":
             # the library's quirk table: Konsole places the cursor after an inline image differently from iTerm2 unless
             # the image carries doNotMoveCursor=1 (the terminal model follows the iTerm2 rule for the other kinds only)
-            for t in toks:
-                if t.wire.startswith("I") and t.info["keys"].get("doNotMoveCursor") != "1":
+            for t in wires:
+                if t.startswith("I") and not t.endswith(",1"):
                     return Failure(f"konsole-cursor/{where}", "an inline image is sent to Konsole without doNotMoveCursor=1: the "
                                    "cursor does not end where the render's cursor choreography assumes (rectangle/cursor clause)")
-        reqs, places = [], []
-        rng = random.Random(hash(case.line) & 0xFFFF)
-        for _ in range(3):
-            W = w + rng.choice([0, 0, 1, 5])
-            H = h + rng.choice([0, 0, 1, 4])
-            x = rng.choice([0, W - w])
-            top = rng.randrange(0, 3)
-            row = top + rng.choice([0, H - h])
-            places.append((W, H, row, x, top))
-            reqs.append(f"term.run {W} {H} {kind} {row} {x} {top} {x} {tk.wire(toks)}")
-        res = fw.run_driver(self.driver, reqs)
         for (W, H, row, x, top), r in zip(places, res):
             f = check_rect(r, W, H, row, x, top, w, h, text=d["style"] == "block")
             if f:
                 return Failure(f"{f[0]}/{where}", f"{f[1]} (terminal {W}x{H}, cursor at row {row} col {x}, top {top})")
         return None
+
+
+_KITTY_TX = re.compile(r"\x1b_G([^;\x1b]*);([^\x1b]*)\x1b\\")
+
+
+def payload_check(out: str):
+    """a kitty transmission that says `o=z` must carry a payload that inflates (else the terminal rejects the
+    image and nothing is displayed); reads the APC commands directly (first command's keys, all payloads)"""
+    cur = None
+    for m in _KITTY_TX.finditer(out):
+        ctrl, payload = m.groups()
+        keys = dict(i.split("=", 1) for i in ctrl.split(",") if "=" in i)
+        if keys.get("a") == "T":
+            cur = [keys, payload]
+        elif cur is not None and set(keys) == {"m"}:
+            cur[1] += payload
+        else:
+            continue
+        if keys.get("m") == "0" and cur is not None:
+            if cur[0].get("o") == "z":
+                try:
+                    zlib.decompress(base64.standard_b64decode(cur[1]))
+                except Exception as e:
+                    return (f"a kitty command says o=z but its payload does not inflate ({e}): "
+                            "the terminal rejects the image and the rectangle is not covered")
+            cur = None
+    return None
 
 
 def check_rect(resp: str, W, H, row, x, top, w, h, text: bool):
